@@ -4,7 +4,7 @@ Proof: lean/Reduino/Props/C01.lean: translation correctness of `tr` / `tr2` on t
 source = C semantics of the emitted program, every N; strict reading of `/` and `%`, see TRUSTED).
 Ties: T (text rendered from the model's `tr` vs the real emit(parse(...))), S_py (model Python semantics vs CPython),
 S_c (model C semantics vs the compiled sketch).  Oracle E: CPython trace vs compiled-firmware trace of the same script,
-on the fragment and on a stream of constructs just outside it (helpers, lists, comprehensions, f-strings, tuple assignments
+on the fragment (since W6 with helper functions called at statement level) and on a stream of constructs just outside it (helper calls inside expressions, lists, comprehensions, f-strings, tuple assignments
 whose right-hand sides have side effects or reach the targets through helper functions reading / writing globals)."""
 from __future__ import annotations
 
@@ -20,8 +20,17 @@ TRUSTED = [
     "fragment: int/bool values, + - *, bitwise & | ^, // and %, abs(e), min/max over int-typed operands (n-ary calls = left fold), unary minus, comparisons, "
     "and/or/not over bools, conditional expressions, assignment, augmented assignment (every operator), tuple assignment to already declared names of "
     "the right-hand sides' types (W5), if/elif/else, while, for-range, break, serial write "
-    "of ints and strings, sleep; names first assigned at top level or (tr2) one block below it; helper functions, lists, floats, / ** << >> and `continue` are "
+    "of ints and strings, sleep; names first assigned at top level or (tr2) one block below it; lists, floats, / ** << >> and `continue` are "
     "outside the theorem and exercised only by the end-to-end oracle",
+    "helper functions (W6): `def`s before the prologue, called at statement level (`f(args)`, `x = f(args)` with x declared), int/bool/string parameters and one "
+    "signature per helper, body over parameters and locals only (locals first assigned at the top level of the body, parameters never assigned, no tuples, no "
+    "module-level names), at most one trailing return, earlier helpers only (no recursion).  The call statement of the model CARRIES the called definition "
+    "(the driver fills it in from the `defs` list: `Prog.resolve`; `tr` checks `Prog.resolved`); the model's frame is fresh, so a module-level name in a body is a "
+    "NameError of the model (CPython would read it: such scripts are not generated; K01j is the known defect about writes).  Emitted signature as MEASURED: the "
+    "def-time parse types every parameter int, only `x = f(args)` requests the argument types, a call statement requests nothing (`Prog.sigsOk`: a helper never "
+    "called with a target has all-int parameters; `funCallsStable`: value calls inside a body request the same types under both parses); prototypes only when "
+    "more than one definition is emitted.  T compares prototypes, definitions (local declarations at first assignment, return) and call lines; S_py / S_c tie the "
+    "call semantics of the model to CPython and g++.  C06's `wf`/`Closed` do not cover sketches with calls yet (g++ compiles each generated one in S_c)",
     "text (W13): string literals of printable ASCII, string-typed names (declaration, assignment, tuple assignment, promotion), conditional expressions over "
     "strings, str(e) of int-/string-typed e (emitted String(e)), + on two strings (literal left operand emitted as String(\"...\"); s += e), f-strings (the generator prints f\"..\" and sends the model the left fold "
     "of + over the parts that `_to_c_expr` emits for a JoinedStr — a formatted value is String(e), a plain f-string a literal; T ties that reading to the emitted text, "
@@ -42,7 +51,7 @@ TRUSTED = [
     "W14 list comprehension over range(a, b, s): `Fw/ListRange.lean` mirrors the helper template's counting walk and bound-checked fill walk (theorems for all a, b and s ≠ 0: "
     "the block holds exactly Python's range, no store outside it); C int unbounded there too (`exit_value_up/down`: no value beyond stop + step is computed), the lambda body a pure "
     "Int → Int (tied with affine bodies m*t + c, element type int); step 0: helper returns the empty list where CPython raises ValueError (counted, no oracle verdict)",
-    "helper functions are outside the model: a tuple assignment whose values call helpers that read or write the globals being re-bound (all values before any "
+    "helper calls INSIDE expressions are outside the model: a tuple assignment whose values call helpers that read or write the globals being re-bound (all values before any "
     "store) is checked by E only, on pinned and random scripts (`helper_tuple_scripts`)",
     "harness/langgen.py printers (Python text and S-expression of one tree), harness/pyoracle.py (CPython + host modules), mock core + host g++",
 ]
